@@ -168,15 +168,74 @@ def run(ctx):
     ctx.oblige("correspondence:L3:impl-run=reference-semantics", not mism3 and not mism4,
                "%d function runs, %d policy runs disagree" % (len(mism3), len(mism4)))
 
+    # ---------------- the match-exhaustiveness family: option / result scrutinees whose sides have different cardinalities
+    all_shapes = cg.match_shapes()
+    shapes = all_shapes if thorough else [ctx.rng.choice(all_shapes) for _ in range(150)]
+    fam = [(sh, cg.match_policy(sh, i % 2 == 0)) for i, sh in enumerate(shapes)]
+    resm, err = cc.run_harness(vlib, binp, [cc.compile_line(p) for (sh, p) in fam])
+    if resm is None:
+        ctx.oblige("harness:run:match-family", False, err)
+        return
+    fam_usable = [(p, l) for ((sh, p), l) in zip(fam, resm) if l.startswith("ok ") or l.startswith("err ")]
+    holes = [(sh, p) for ((sh, p), l) in zip(fam, resm) if l.startswith("ok ") and not sh[2]]
+    for (sh, p) in holes[:3]:
+        ctx.violation("the compiler accepted a match that does not cover its scrutinee type and has no default arm",
+                      {"policy": cc.policy_text(p), "uncovered": "one side of the scrutinee type has fewer literal patterns than values and no binding",
+                       "contradicts": "accepted_is_safe_full_stmt (coq/proofs/CompileMachine.v): a value no pattern matches has no rule in Lang.v (OWrong)",
+                       "replay_cmd": "echo '%s' | build/target/debug/c24" % cc.compile_line(p)})
+    ctx.oblige("oracle:L1:match-family-non-exhaustive-rejected", not holes, "%d accepted" % len(holes))
+    mismm, cerr = cc.coq_mismatches(vlib, ctx, "c24_match_l1", cc.COQ_HEADER, fam_usable, cc.l1_render, shard=100)
+    if mismm is None:
+        ctx.oblige("correspondence:L1:model-eval", False, cerr)
+        return
+    for j in [j for j in mismm if fam_usable[j][1].startswith("ok ")][:2]:
+        ctx.violation("the compiler accepts a match that the type rules (Typing.v) reject or compile differently",
+                      {"policy": cc.policy_text(fam_usable[j][0]), "contradicts": "Typing.check_patterns_pre/post, missing_default (coq/model/Typing.v)",
+                       "replay_cmd": "echo '%s' | build/target/debug/c24" % cc.compile_line(fam_usable[j][0])})
+    ctx.oblige("correspondence:L1:match-family-acceptance", not mismm and len(fam_usable) == len(fam),
+               "model and compiler differ on %d matches, first: %s -> %s" % (
+                   len(mismm), cc.policy_text(fam_usable[mismm[0]][0])[-400:] if mismm else "", fam_usable[mismm[0]][1][:200] if mismm else ""))
+    mcases = [(p, v) for ((sh, p), l) in zip(fam, resm) if l.startswith("ok ") for v in cg.scrutinee_values(sh[0])]
+    resv, err = cc.run_harness(vlib, binp, [cc.run_line(p, "fn", "main", 0, [v]) for (p, v) in mcases])
+    if resv is None:
+        ctx.oblige("harness:run:match-family-l3", False, err)
+        return
+    mwrong, mruns = [], []
+    for (p, v), l in zip(mcases, resv):
+        if l == "panic":
+            mwrong.append((p, v, l))
+            continue
+        if l.startswith("parse-err") or l.startswith("compile-err"):
+            continue
+        ex, top, depth_, log = cc.run_result(l)
+        if ex != "normal" or top == "I99":
+            mwrong.append((p, v, l))
+        mruns.append((p, [v], 0, (ex, top, log)))
+    for (p, v, l) in mwrong[:3]:
+        ctx.violation("an accepted match went wrong on a value of its scrutinee type (no arm taken, or the VM stopped)",
+                      {"policy": cc.policy_text(p), "scrutinee": cc.val_text(v), "impl": l[:300],
+                       "contradicts": "accepted_is_safe_full_stmt (coq/proofs/CompileMachine.v)",
+                       "replay_cmd": "echo '%s' | build/target/debug/c24" % cc.run_line(p, "fn", "main", 0, [v])})
+    ctx.oblige("oracle:L3:match-family-every-value-takes-an-arm", not mwrong, "%d runs" % len(mwrong))
+    sample = mruns if len(mruns) <= 1500 else [mruns[i] for i in range(0, len(mruns), len(mruns) // 1500 + 1)]
+    mism5, cerr = cc.coq_mismatches(vlib, ctx, "c24_match_l3", cc.COQ_HEADER, sample, cc.l3_fn_render, shard=100)
+    if mism5 is None:
+        ctx.oblige("correspondence:L3:model-eval", False, cerr)
+        return
+    ctx.oblige("correspondence:L3:match-family-impl-run=reference-semantics", not mism5, "%d disagreeing runs" % len(mism5))
+
     accepted_mutants = sum(d["accepted"] for k, d in by_mut.items() if k != "unmutated")
     ctx.coverage.update({
-        "traces_validated_against_impl": len(usable) + len(fn_runs) + len(pol_runs),
-        "evaluations": len(usable) + len(fn_runs) + len(pol_runs),
+        "traces_validated_against_impl": len(usable) + len(fn_runs) + len(pol_runs) + len(fam_usable) + len(mruns),
+        "evaluations": len(usable) + len(fn_runs) + len(pol_runs) + len(fam_usable) + len(sample),
         "distinct_nontrivial": len({cc.policy_text(p) for (p, l) in usable if cc.count_nodes([p['funs'], p['cmds']]) > 40}),
         "rule": "case = one policy of the stream (function programs and command policies, 0-2 random type-, scope-, pattern- or context-breaking edits each); compiled by the real compiler and the model (L1); every policy the real compiler accepts is run on several inputs with I/O failures injected (L3); non-trivial = AST larger than 40 nodes; distinct by policy text",
         "distribution": {"programs": len(usable), "acceptance_by_mutation": by_mut, "accepted_mutants_run": accepted_mutants,
                          "runs": len(fn_runs) + len(pol_runs), "exit_reasons": exits, "unusable_harness_lines": len(bad_lines),
-                         "nesting_depth": depth},
+                         "nesting_depth": depth,
+                         "match_family": {"shapes": len(fam), "of": len(all_shapes), "accepted": sum(1 for l in resm if l.startswith("ok ")),
+                                          "covered_by_construction": sum(1 for (sh, p) in fam if sh[2]), "runs": len(mruns),
+                                          "runs_compared_with_lang": len(sample)}},
         "samples": [{"policy": cc.policy_text(p)[:500], "args": [cc.val_text(x) for x in a], "impl": {"exit": r[0], "top": r[1]}}
                     for (p, a, fa, r) in fn_runs[:3]],
     })
